@@ -3,6 +3,7 @@
 # XXX: this module is used exclusively by the Phenix GUI, which needs an
 # index of all current phil parameters, and an easy way to change them.
 
+import copy
 import io
 import os
 import pickle
@@ -83,7 +84,7 @@ class index:
         self._states.clear()
 
     def push_state(self):
-        self._states.append(self.working_phil.fetch())
+        self._states.append(copy.deepcopy(self.working_phil))
         return len(self._states) - 1
 
     def pop_state(self):
@@ -100,7 +101,7 @@ class index:
         if len(self._states) == 0:
             pass
         else:
-            self.working_phil = self._states[index].fetch()
+            self.working_phil = copy.deepcopy(self._states[index])
             self._phil_has_changed = True
             self.params = None
             self.rebuild_index()
